@@ -36,6 +36,7 @@ struct EnvState {
     bool trampoline = false;
     bool monitor = false;
     bool in_inject = false;
+    bool norm_full_len = false;
     bool in_setup = false;
     std::vector<Block> blocks;
     OpRec* coord_rec = nullptr;
